@@ -219,6 +219,10 @@ func checkRoundTrip(c *mon.Ctx, stage string, idx int64, hr *HistRun) {
 						bad("first-packet-af-missing", fmt.Sprintf("pid %#x call %d", pid, w.k))
 						return
 					}
+					if wantAF.HasSplicingCountdown {
+						// a value wider than the field (edge of the write contract): when the call is accepted, its low 8 bits travel
+						wantAF.SpliceCountdown = int(int8(uint8(wantAF.SpliceCountdown)))
+					}
 					if df := mon.Diff(fp.AdaptationField, wantAF, afIgnore); df != "" {
 						bad("first-packet-af-differs:"+fieldOf(df), fmt.Sprintf("pid %#x call %d: %s", pid, w.k, df))
 						return
